@@ -191,6 +191,17 @@ def main():
         opts = {"max_layer_size_to_store": ck.rng.choice([None, 1000]), "return_all_hashes": ck.rng.random() < 0.5, "return_all_edges": False, "disable_batching": ck.rng.random() < 0.3}
         ck.guard(run_case, ck, {"gd": gd.to_json(), "cfg": cfg, "opts": opts, "starts": None})
         ck.count("many-layer-directed")
+    # one-word states that fill all 64 bits, with the extreme codes (int64 max / min, -1) inside the orbit
+    for _ in range(5 if not ck.thorough else 40):
+        if ck.enough():
+            break
+        gd, w = graphs.full_word_def(ck.rng)
+        cfg = graphs.gen_cfg(ck.rng, gd)
+        cfg["bit_encoding_width"] = ck.rng.choice([w, w, "auto" if max(gd.central) == 2**w - 1 else w])
+        opts = {"max_layer_size_to_store": ck.rng.choice([None, 1000]), "return_all_hashes": ck.rng.random() < 0.5, "return_all_edges": False, "disable_batching": ck.rng.random() < 0.3}
+        starts = None if ck.rng.random() < 0.7 else [list(gd.central), list(gd.central[1:] + gd.central[:1])]
+        ck.guard(run_case, ck, {"gd": gd.to_json(), "cfg": cfg, "opts": opts, "starts": starts})
+        ck.count("full-word graphs")
     # matrix groups under a large modulus with entries just below it (products and row sums cross 2^24, 2^53, 2^63)
     for _ in range(8 if not ck.thorough else 60):
         if ck.enough():
